@@ -50,6 +50,8 @@ pub struct Profile {
     pub avoid_param_names: Vec<&'static str>,
     /// a world item (inline interface, named import, function, type) may be named like the world
     pub item_named_like_world: bool,
+    /// follow type definitions by structurally equal / near-equal clones
+    pub near_equal_types: bool,
 }
 
 impl Profile {
@@ -82,6 +84,7 @@ impl Profile {
             async_funcs_small_params: false,
             avoid_param_names: vec![],
             item_named_like_world: true,
+            near_equal_types: false,
         }
     }
     pub fn sync_only(mut self) -> Profile {
@@ -623,7 +626,59 @@ impl<'a, 'b> Gen<'a, 'b> {
         let ntypes = self.t.pick(self.p.max_types + 1);
         for _ in 0..ntypes {
             let td = self.typedef(&mut scope, &mut used);
+            let orig = td.clone();
             items.push(Item::Type(td));
+            // structurally equal and near-equal clones (for the type-analysis checks)
+            if self.p.near_equal_types && !matches!(orig.kind, DefKind::Resource(_)) {
+                let n = self.t.pick(3);
+                for _ in 0..n {
+                    let mut c = orig.clone();
+                    c.name = self.names.fresh(self.t, &mut used, false);
+                    c.docs = None;
+                    let how = self.t.pick(6);
+                    let mut renamed = |names: Vec<String>| -> String {
+                        let mut s: BTreeSet<String> = names.into_iter().collect();
+                        self.names.fresh(self.t, &mut s, false)
+                    };
+                    match (&mut c.kind, how) {
+                        // 0,1: exact structural copy
+                        (_, 0 | 1) => {}
+                        (DefKind::Record(fs), 2) if !fs.is_empty() => {
+                            let nn = renamed(fs.iter().map(|f| f.0.clone()).collect());
+                            fs[0].0 = nn;
+                        }
+                        (DefKind::Record(fs), 3) if fs.len() >= 2 => fs.swap(0, 1),
+                        (DefKind::Record(fs), 4) if !fs.is_empty() => {
+                            fs[0].1 = if fs[0].1 == Ty::Prim(Prim::U8) { Ty::Prim(Prim::S8) } else { Ty::Prim(Prim::U8) };
+                        }
+                        (DefKind::Variant(cs), 2) if !cs.is_empty() => {
+                            let nn = renamed(cs.iter().map(|f| f.0.clone()).chain([orig.name.clone(), c.name.clone()]).collect());
+                            cs[0].0 = nn;
+                        }
+                        (DefKind::Variant(cs), 3) if cs.len() >= 2 => cs.swap(0, 1),
+                        (DefKind::Variant(cs), 4) if !cs.is_empty() => {
+                            cs[0].1 = match cs[0].1 {
+                                None => Some(Ty::Prim(Prim::U8)),
+                                Some(_) => None,
+                            };
+                        }
+                        (DefKind::Enum(cs) | DefKind::Flags(cs), 2 | 4) if !cs.is_empty() => {
+                            let nn = renamed(cs.clone());
+                            cs[0] = nn;
+                        }
+                        (DefKind::Enum(cs) | DefKind::Flags(cs), 3) if cs.len() >= 2 => cs.swap(0, 1),
+                        (DefKind::Alias(_), 5) => c.kind = DefKind::Alias(Ty::Named(orig.name.clone())),
+                        // an alias *of* the original is equal to it as well
+                        (_, 5) => c.kind = DefKind::Alias(Ty::Named(orig.name.clone())),
+                        _ => {}
+                    }
+                    self.features.insert("near-equal-types");
+                    let mut k = scope.iter().find(|k| k.name == orig.name).cloned().unwrap();
+                    k.name = c.name.clone();
+                    scope.push(k);
+                    items.push(Item::Type(c));
+                }
+            }
         }
         let nfuncs = min_funcs.max(self.t.pick(self.p.max_funcs + 1));
         for _ in 0..nfuncs {
@@ -657,7 +712,7 @@ pub fn generate(tape: &[u16], profile: &Profile) -> Wit {
     order.push(0);
     let mut built: Vec<(usize, Package)> = vec![];
     for &pi in &order {
-        let ns = ["a", "my", "wasi", "foo-ns"][g.t.pick(if profile.adversarial_names { 4 } else { 1 })].to_string();
+        let mut ns = ["a", "my", "wasi", "foo-ns"][g.t.pick(if profile.adversarial_names { 4 } else { 1 })].to_string();
         // same package name with different versions is interesting for module naming
         let mut name = g.names.fresh(g.t, &mut BTreeSet::new(), false);
         let mut version = None;
@@ -665,13 +720,18 @@ pub fn generate(tape: &[u16], profile: &Profile) -> Wit {
             const VERS: &[&str] = &["0.1.0", "0.2.0", "1.0.0", "1.2.3-rc.1", "2.0.0-alpha+build.5", "0.2.0-rc-2023-11-10"];
             version = Some(VERS[g.t.pick(VERS.len())].to_string());
         }
-        if pi != 0 && profile.versions && !built.is_empty() && g.t.chance(1, 3) {
-            // reuse the previous dependency's name with another version
+        // interface names to take over from the previous package (another version of it)
+        let mut inherit_ifaces: Vec<String> = vec![];
+        if profile.versions && !built.is_empty() && g.t.chance(1, 3) {
+            // reuse the previous package's namespace and name with another version, and
+            // its interface names (the `wasi:io@0.2.0` next to `wasi:io@0.2.1` situation)
             let prev = &built[built.len() - 1].1;
             if prev.version.is_some() {
+                ns = prev.ns.clone();
                 name = prev.name.clone();
                 let v = ["3.0.0", "3.1.0", "0.0.1"][g.t.pick(3)].to_string();
                 version = Some(v);
+                inherit_ifaces = prev.ifaces.iter().map(|i| i.name.clone()).collect();
                 g.features.insert("same-package-two-versions");
             }
         }
@@ -684,8 +744,20 @@ pub fn generate(tape: &[u16], profile: &Profile) -> Wit {
         let mut pkg = Package { ns, name, version, ifaces: vec![], worlds: vec![] };
         let nif = 1 + g.t.pick(profile.max_ifaces);
         let mut iface_names = BTreeSet::new();
-        for _ in 0..nif {
-            let iname = g.names.fresh(g.t, &mut iface_names, profile.adversarial_names);
+        for k in 0..nif {
+            // interface names: inherited from the other version of this package, or one of
+            // a few common last segments shared across packages, or a fresh name
+            const COMMON: &[&str] = &["types", "api", "handler"];
+            let common = COMMON[g.t.pick(COMMON.len())];
+            let iname = if k < inherit_ifaces.len() && !iface_names.contains(&inherit_ifaces[k]) {
+                iface_names.insert(inherit_ifaces[k].clone());
+                inherit_ifaces[k].clone()
+            } else if g.t.chance(1, 4) && !iface_names.iter().any(|n| n.eq_ignore_ascii_case(common)) {
+                iface_names.insert(common.to_string());
+                common.to_string()
+            } else {
+                g.names.fresh(g.t, &mut iface_names, profile.adversarial_names)
+            };
             let docs = g.docs();
             // uses from earlier interfaces (same or other packages)
             let mut prefill = vec![];
